@@ -39,7 +39,8 @@ Inductive op1 :=
 Inductive hop :=
 | On (i : nat) (o : op1)
 | Copy (i : nat)                    (* caches.append(caches[i].copy()) *)
-| EqCache (i j : nat).              (* caches[i] == caches[j] *)
+| EqCache (i j : nat)               (* caches[i] == caches[j] *)
+| UpdateFrom (i j : nat).           (* order = list(caches[j]); caches[i].update(caches[j]); outcome = order *)
 
 Inductive outv :=
 | ONone
